@@ -48,6 +48,7 @@ func checkC02(ctx *Ctx, r *Report) {
 	c02GoConstructorNames(ctx, r)
 	c02FourthHunt(ctx, r)
 	c02PythonModuleNames(ctx, r)
+	c02JavaPackageSegments(ctx, r)
 	c16FourthHunt(ctx, r) // a union branch referring to a constant: the Go builder does not type-check
 	c09FifthHunt(ctx, r)  // Python methods shadowing imported modules; integer bounds that overflow int64 in the generated Go
 	c02RuntimeGuard(ctx, r)
@@ -3416,4 +3417,85 @@ func c02PythonModuleNames(ctx *Ctx, r *Report) {
 	r.Count("module file names built by python.RawTypes.Generate", files)
 	r.Check(raw == 0 || tested, "skeleton/python-module-names-importable", "python.RawTypes.Generate names the module after the package", fd.Pos(), "through a formatter, or after a test that fails the run",
 		"the module is named after the package as it is: `package: with-dashes` gives models/with-dashes.py, `1st` and `class` likewise — files that py_compile accepts or not, and that no `from ..models import …` can name: the builders and the modules that refer to the package can not be imported, while the run succeeds")
+}
+
+// c02JavaPackageSegments (lead of §23.1, confirmed and repaired): the package of a schema becomes the last segment of
+// `package <package_path>.<segment>;`. formatPackageName leaves letters, digits and underscores — `class`, `int`, `1st`
+// survive it and are no identifiers. The function that generates the files of a schema tests the formatted name with
+// a predicate that knows Java's keywords, and leaves with an error.
+func c02JavaPackageSegments(ctx *Ctx, r *Report) {
+	fn := ctx.LookupMethod("internal/jennies/java", "RawTypes", "genFilesForSchema")
+	fd, p := ctx.DeclOf(fn)
+	if fd == nil {
+		r.Undecided("anchor lost: java.RawTypes.genFilesForSchema")
+		return
+	}
+	info := p.TypesInfo
+	knowsKeywords := func(f *types.Func) bool {
+		if f == nil || f.Pkg() != p.Types {
+			return false
+		}
+		if f.Name() == "isReservedJavaKeyword" {
+			return true
+		}
+		hfd, _ := ctx.DeclOf(f)
+		if hfd == nil || hfd.Body == nil {
+			return false
+		}
+		found := false
+		ast.Inspect(hfd.Body, func(k ast.Node) bool {
+			if c, ok := k.(*ast.CallExpr); ok {
+				if cf := callee(info, c); cf != nil && cf.Name() == "isReservedJavaKeyword" {
+					found = true
+				}
+			}
+			return true
+		})
+		return found
+	}
+	tested := false
+	ast.Inspect(fd.Body, func(m ast.Node) bool {
+		is, ok := m.(*ast.IfStmt)
+		if !ok || !endsInExit(is.Body) {
+			return true
+		}
+		// the exit returns an error
+		rs, ok := is.Body.List[len(is.Body.List)-1].(*ast.ReturnStmt)
+		if !ok || len(rs.Results) == 0 || isNilIdent(info, rs.Results[len(rs.Results)-1]) {
+			return true
+		}
+		// the tested value is the formatted package of the schema
+		formatted := map[types.Object]bool{}
+		if init, ok := is.Init.(*ast.AssignStmt); ok && len(init.Lhs) == 1 && len(init.Rhs) == 1 {
+			if c, ok := ast.Unparen(init.Rhs[0]).(*ast.CallExpr); ok {
+				if f := callee(info, c); f != nil && f.Name() == "formatPackageName" {
+					if id, ok := init.Lhs[0].(*ast.Ident); ok {
+						formatted[objOf(info, id)] = true
+					}
+				}
+			}
+		}
+		ast.Inspect(is.Cond, func(k ast.Node) bool {
+			c, ok := k.(*ast.CallExpr)
+			if !ok || !knowsKeywords(callee(info, c)) {
+				return true
+			}
+			for _, a := range c.Args {
+				switch x := ast.Unparen(a).(type) {
+				case *ast.Ident:
+					if formatted[objOf(info, x)] {
+						tested = true
+					}
+				case *ast.CallExpr:
+					if f := callee(info, x); f != nil && f.Name() == "formatPackageName" {
+						tested = true
+					}
+				}
+			}
+			return true
+		})
+		return true
+	})
+	r.Check(tested, "skeleton/java-package-segment-checked", "java.RawTypes.genFilesForSchema names the Java package after the schema's", fd.Pos(), "after testing the formatted name against Java's keywords, with an error exit",
+		"the formatted package of the schema is written into `package <path>.<segment>;` untested: a schema loaded as `class`, `int` or `1st` gives `package com.example.class;` — <identifier> expected, no file of the package compiles, while the run succeeds")
 }
